@@ -1,5 +1,8 @@
 import RactorModel.Lemmas.PgSpec
 import RactorModel.Lemmas.PgNotify
+import RactorModel.Lemmas.PgConcGlob
+import RactorModel.Lemmas.PgConcNotify
+import RactorModel.Lemmas.PgConcLin
 
 /-!
 # C11 — process groups reflect live membership and tell their monitors
@@ -399,6 +402,222 @@ example :
     let st := run init [.join 1 0 [1], .exit 1, .join 1 0 [1, 2], .monitor 0 1, .monitorScope 0 1]
     getMembers st 1 0 = [2] ∧ st.rel.map (·.1) = [2] ∧ st.world = [] := by decide
 
+/-! ### Everything concurrent, lock region by lock region (`Pg.Conc`)
+
+`Model/PgConc.lean`: any number of actors exiting at the same time, each exit stepped region by region
+(`mark`, `demonitor_all`: drain + one forward entry per step, `leave_all`: drain + one forward entry per
+step + finish), any number of caller threads inside `join_scoped` / `leave_scoped` / `monitor` /
+`monitor_scope` / `demonitor` / `demonitor_scope`, each stepped region by region in the order of
+`pg.rs`; a schedule is ANY list of `Tid`s. `g0 ops calls` = the threads about to make `calls` in a state
+reached by the API-level history `ops`. -/
+
+/-- the start of a concurrent run: API-level history `ops`, then the threads `calls`, nothing begun -/
+def g0 (ops : List Op) (calls : List Conc.Pc) : Conc.G := Conc.start (run init ops) calls
+
+/-- **The cross-index invariant, weakened exactly by the in-flight exits.** For EVERY schedule and every
+actor `a`: (1) reverse ⊆ forward is never weakened — every membership / group-monitor / world-monitor
+entry of the reverse index has its forward entry; (2) forward ⊆ reverse can fail for `a` only inside
+`a`'s OWN exit, and then every stale forward entry is one of the keys that exit has drained and not yet
+visited (`demon gk wk`: stale listener entries ⊆ `gk` / `wk`; `leaving mk _`: stale member entries ⊆
+`mk`); no operation of any other thread — join, leave, monitor, demonitor, their clean-up regions, the
+regions of other actors' exits — ever accounts for a discrepancy; (3) what the exit has drained from
+the reverse index stays drained. -/
+theorem conc_cross_index_windows (ops : List Op) (calls : List Conc.Pc) (sched : List Conc.Tid) (a : Nat) :
+    let g := Conc.run (g0 ops calls) sched
+    ((∀ k, k ∈ relMem g.st a → a ∈ membersOf g.st k) ∧ (∀ k, k ∈ relGmon g.st a → a ∈ listenersOf g.st k) ∧
+      (∀ s, s ∈ relWmon g.st a → a ∈ worldOf g.st s)) ∧
+    (∀ k, a ∈ membersOf g.st k → k ∈ relMem g.st a ∨ ∃ mk rm, Conc.phaseOf g a = .leaving mk rm ∧ k ∈ mk) ∧
+    (∀ k, a ∈ listenersOf g.st k → k ∈ relGmon g.st a ∨ ∃ gk wk, Conc.phaseOf g a = .demon gk wk ∧ k ∈ gk) ∧
+    (∀ s, a ∈ worldOf g.st s → s ∈ relWmon g.st a ∨ ∃ gk wk, Conc.phaseOf g a = .demon gk wk ∧ s ∈ wk) ∧
+    Conc.drained a g.st (Conc.phaseOf g a) := by
+  intro g
+  have h : Conc.AInv a g.st (Conc.phaseOf g a) :=
+    Conc.allInv_run (Conc.allInv_start (inv_run inv_init ops) calls) sched a
+  refine ⟨h.r, ?_, ?_, ?_, h.dr⟩
+  · intro k hk
+    have hz := h.z
+    generalize Conc.phaseOf g a = ph at hz
+    cases ph with
+    | live => exact Or.inl (hz.1 k hk)
+    | marked => exact Or.inl (hz.2.1 k hk)
+    | demon gk wk => exact Or.inl (hz.2.1 k hk)
+    | demonDone => exact Or.inl (hz.2.1 k hk)
+    | leaving mk rm => exact Or.inr ⟨mk, rm, rfl, hz.2.1 k hk⟩
+    | done => exact absurd hk (hz.2.1 k)
+  · intro k hk
+    have hz := h.z
+    generalize Conc.phaseOf g a = ph at hz
+    cases ph with
+    | live => exact Or.inl (hz.2.1 k hk)
+    | marked => exact Or.inl (hz.2.2.1 k hk)
+    | demon gk wk => exact Or.inr ⟨gk, wk, rfl, hz.2.2.1 k hk⟩
+    | demonDone => exact absurd hk (hz.2.2.1 k)
+    | leaving mk rm => exact absurd hk (hz.2.2.1 k)
+    | done => exact absurd hk (hz.2.2.1 k)
+  · intro s hs
+    have hz := h.z
+    generalize Conc.phaseOf g a = ph at hz
+    cases ph with
+    | live => exact Or.inl (hz.2.2 s hs)
+    | marked => exact Or.inl (hz.2.2.2 s hs)
+    | demon gk wk => exact Or.inr ⟨gk, wk, rfl, hz.2.2.2 s hs⟩
+    | demonDone => exact absurd hs (hz.2.2.2 s)
+    | leaving mk rm => exact absurd hs (hz.2.2.2 s)
+    | done => exact absurd hs (hz.2.2.2 s)
+
+/-- Full forward ↔ reverse agreement for every actor that is not inside its own exit — whatever all the
+other threads and all the other exits are in the middle of. -/
+theorem conc_agreement_outside_own_exit (ops : List Op) (calls : List Conc.Pc) (sched : List Conc.Tid) (a : Nat) :
+    let g := Conc.run (g0 ops calls) sched
+    (Conc.phaseOf g a = .live ∨ Conc.phaseOf g a = .marked) →
+    (∀ k, a ∈ membersOf g.st k ↔ k ∈ relMem g.st a) ∧ (∀ k, a ∈ listenersOf g.st k ↔ k ∈ relGmon g.st a) ∧
+    (∀ s, a ∈ worldOf g.st s ↔ s ∈ relWmon g.st a) := by
+  intro g hp
+  obtain ⟨⟨r1, r2, r3⟩, f1, f2, f3, _⟩ := conc_cross_index_windows ops calls sched a
+  refine ⟨fun k => ⟨fun h => ?_, r1 k⟩, fun k => ⟨fun h => ?_, r2 k⟩, fun s => ⟨fun h => ?_, r3 s⟩⟩
+  · rcases f1 k h with x | ⟨mk, rm, e, _⟩
+    · exact x
+    · rcases hp with hp | hp <;> (rw [hp] at e; cases e)
+  · rcases f2 k h with x | ⟨gk, wk, e, _⟩
+    · exact x
+    · rcases hp with hp | hp <;> (rw [hp] at e; cases e)
+  · rcases f3 s h with x | ⟨gk, wk, e, _⟩
+    · exact x
+    · rcases hp with hp | hp <;> (rw [hp] at e; cases e)
+
+/-- **No zombie, for every exit of every schedule**: as soon as the exit of `a` has finished — whatever
+the other exits and the callers are still in the middle of — `a` is stopping, a member of no group, a
+listener of none, and its reverse-index sets are empty. -/
+theorem conc_no_zombie (ops : List Op) (calls : List Conc.Pc) (sched : List Conc.Tid) (a : Nat) :
+    let g := Conc.run (g0 ops calls) sched
+    Conc.phaseOf g a = .done →
+    a ∈ g.st.dead ∧ (∀ k, a ∉ membersOf g.st k) ∧ (∀ k, a ∉ listenersOf g.st k) ∧ (∀ s, a ∉ worldOf g.st s) ∧
+    relMem g.st a = [] ∧ relGmon g.st a = [] ∧ relWmon g.st a = [] := by
+  intro g hp
+  have h : Conc.AInv a g.st (Conc.phaseOf g a) :=
+    Conc.allInv_run (Conc.allInv_start (inv_run inv_init ops) calls) sched a
+  have hz := h.z
+  have hd := h.dr
+  rw [hp] at hz hd
+  exact ⟨hz.1, hz.2.1, hz.2.2.1, hz.2.2.2, hd.2.2, hd.1, hd.2.1⟩
+
+/-- **At rest** (every caller has returned, every exit that started has finished): no stopping actor is
+a member or a monitor of anything, and forward ↔ reverse agreement is total. -/
+theorem conc_at_rest (ops : List Op) (calls : List Conc.Pc) (sched : List Conc.Tid) :
+    let g := Conc.run (g0 ops calls) sched
+    Conc.atRest g →
+    (∀ a, a ∈ g.st.dead → (∀ k, a ∉ membersOf g.st k) ∧ (∀ k, a ∉ listenersOf g.st k) ∧ (∀ s, a ∉ worldOf g.st s)) ∧
+    (∀ a k, a ∈ membersOf g.st k ↔ k ∈ relMem g.st a) ∧ (∀ a k, a ∈ listenersOf g.st k ↔ k ∈ relGmon g.st a) ∧
+    (∀ a s, a ∈ worldOf g.st s ↔ s ∈ relWmon g.st a) := by
+  intro g hr
+  have hall : ∀ a, Conc.AInv a g.st (Conc.phaseOf g a) :=
+    Conc.allInv_run (Conc.allInv_start (inv_run inv_init ops) calls) sched
+  have hclean : ∀ a, a ∈ g.st.dead → (∀ k, a ∉ membersOf g.st k) ∧ (∀ k, a ∉ listenersOf g.st k) ∧
+      (∀ s, a ∉ worldOf g.st s) := by
+    intro a hd
+    rcases hr.2 a with hp | hp
+    · exact (hall a).old hp hd
+    · have hz := (hall a).z
+      rw [hp] at hz
+      exact ⟨hz.2.1, hz.2.2.1, hz.2.2.2⟩
+  have hagree : ∀ a, (∀ k, a ∈ membersOf g.st k ↔ k ∈ relMem g.st a) ∧
+      (∀ k, a ∈ listenersOf g.st k ↔ k ∈ relGmon g.st a) ∧ (∀ s, a ∈ worldOf g.st s ↔ s ∈ relWmon g.st a) := by
+    intro a
+    rcases hr.2 a with hp | hp
+    · exact conc_agreement_outside_own_exit ops calls sched a (Or.inl hp)
+    · obtain ⟨_, c1, c2, c3, e1, e2, e3⟩ := conc_no_zombie ops calls sched a hp
+      refine ⟨fun k => ⟨fun h => absurd h (c1 k), fun h => ?_⟩, fun k => ⟨fun h => absurd h (c2 k), fun h => ?_⟩,
+        fun s => ⟨fun h => absurd h (c3 s), fun h => ?_⟩⟩
+      · rw [e1] at h; cases h
+      · rw [e2] at h; cases h
+      · rw [e3] at h; cases h
+  exact ⟨hclean, fun a => (hagree a).1, fun a => (hagree a).2.1, fun a => (hagree a).2.2⟩
+
+/-- **Every query is the projection of the membership relation — in EVERY state of every schedule**, not
+only at rest: the forward map keeps unique keys and the scope index lists exactly the groups with
+members (every region that adds or removes a member updates the index while it holds the entry). -/
+theorem conc_queries_are_projections (ops : List Op) (calls : List Conc.Pc) (sched : List Conc.Tid) :
+    let st := (Conc.run (g0 ops calls) sched).st
+    (∀ s g a, a ∈ getMembers st s g ↔ member st s g a) ∧
+    (∀ s g a, a ∈ getLocalMembers st s g ↔ member st s g a ∧ a ∉ st.remote) ∧
+    (∀ g, g ∈ whichGroups st ↔ ∃ s a, member st s g a) ∧
+    (∀ s, s ∈ whichScopes st ↔ ∃ g a, member st s g a) ∧
+    (∀ s g, (s, g) ∈ whichScopesAndGroups st ↔ ∃ a, member st s g a) ∧
+    (∀ s g, g ∈ whichScopedGroups st s ↔ ∃ a, member st s g a) := by
+  intro st
+  have hg : Conc.Glob st := Conc.glob_run (Conc.glob_of_inv (inv_run inv_init ops)) sched
+  refine ⟨fun _ _ _ => Iff.rfl, fun s g a => getLocalMembers_spec st s g a, ?_, ?_, ?_, ?_⟩
+  · intro g
+    simp only [whichGroups, List.mem_map, Conc.mem_nonEmptyKeys_of_nodup hg.kMap, member]
+    constructor
+    · rintro ⟨⟨s, g'⟩, ⟨a, ha⟩, rfl⟩; exact ⟨s, a, ha⟩
+    · rintro ⟨s, a, ha⟩; exact ⟨(s, g), ⟨a, ha⟩, rfl⟩
+  · intro s
+    simp only [whichScopes, List.mem_map, Conc.mem_nonEmptyKeys_of_nodup hg.kMap, member]
+    constructor
+    · rintro ⟨⟨s', g⟩, ⟨a, ha⟩, rfl⟩; exact ⟨g, a, ha⟩
+    · rintro ⟨g, a, ha⟩; exact ⟨(s, g), ⟨a, ha⟩, rfl⟩
+  · intro s g
+    simp only [whichScopesAndGroups, Conc.mem_nonEmptyKeys_of_nodup hg.kMap, member]
+  · intro s g
+    have := hg.idx s g
+    unfold idxOf at this
+    simp only [whichScopedGroups, this, member]
+
+/-- **Linearisation.** Every region of every thread changes the membership read off the forward map
+exactly as the specification's transition for the region's linearised operation: `join` / `leave` take
+effect in their entry-lock region (a join admits the actors alive at THAT instant), the automatic
+leave of an exiting actor takes effect one group at a time in the `leave_all` iterations, and no
+other region (filters, clean-ups, notification regions, monitor / demonitor regions, the other exit
+regions) changes membership. Hence along every schedule the concrete membership IS the abstract
+relation evolved by the linearised operations. -/
+theorem conc_membership_linearizable (ops : List Op) (calls : List Conc.Pc) (sched : List Conc.Tid) (k : Key) (x : Nat) :
+    (∀ (g : Conc.G) (t : Conc.Tid),
+      x ∈ membersOf (Conc.step g t).st k ↔
+        Conc.specLin (fun k x => x ∈ membersOf g.st k) (fun x => x ∉ g.st.dead) (Conc.linOf g t) k x) ∧
+    (x ∈ membersOf (Conc.run (g0 ops calls) sched).st k ↔
+      Conc.absRun (fun k x => x ∈ membersOf (run init ops) k) (g0 ops calls) sched k x) :=
+  ⟨fun g t => Conc.lin_step g t k x, Conc.lin_run (g0 ops calls) sched k x⟩
+
+/-- **Each change is reported exactly once, to the listeners of the instant of the change.**
+(1) Every region appends at most the change records of its own linearised operation and each record
+carries `recipients` of the state the region ran in (group listeners ++ scope listeners ++ all-scopes
+listeners read under the entry lock). (2) For every schedule, as multisets: everything sent so far plus
+what the in-flight operations still owe (a caller between its entry region and its notification
+region, an exit between a `leave_all` iteration and its `finish`) = one `notifyPending` per recorded
+change. (3) At rest nothing is owed: the notifications sent are a permutation of exactly one event per
+recorded recipient per change. -/
+theorem conc_notifications_exactly_once (ops : List Op) (calls : List Conc.Pc) (sched : List Conc.Tid)
+    (hfresh : ∀ pc ∈ calls, Conc.pcOwed pc = []) :
+    let g := Conc.run (g0 ops calls) sched
+    (∀ (g : Conc.G) (t : Conc.Tid), ∃ new, (Conc.step g t).changes = g.changes ++ new ∧
+        ∀ p ∈ new, p.to = recipients g.st (p.s, p.g)) ∧
+    (g.sent ++ Conc.owed g).Perm (g.changes.flatMap notifyPending) ∧
+    (Conc.atRest g → g.sent.Perm (g.changes.flatMap notifyPending)) := by
+  intro g
+  have ha : Conc.Acct g := Conc.acct_run (Conc.acct_start _ calls hfresh) sched
+  have hp : (g.sent ++ Conc.owed g).Perm (g.changes.flatMap notifyPending) := List.perm_iff_count.mpr ha.bal
+  refine ⟨Conc.records_step, hp, ?_⟩
+  intro hr
+  have := Conc.owed_atRest ha.kEx hr
+  rw [this, List.append_nil] at hp
+  exact hp
+
+/-- non-vacuity: actors 1 and 2 exit at the same time while one thread joins both to a second group and
+another thread starts monitoring; mid-run the forward entry of actor 1 in group (1,0) is stale (its
+reverse index is already drained) and accounted for by the pending key of its own exit; at rest both
+are gone, the late join admitted nobody, and the monitor 9 got exactly one Leave per exiting member. -/
+example :
+    let g := g0 [.join 1 0 [1, 2], .monitor 0 9] [.join 1 1 [1, 2], .monitorScope 1 8]
+    let mid := Conc.run g [.ex 1 .mark, .call 0, .ex 2 .mark, .ex 1 .demTake, .ex 1 .demDone, .ex 1 .take, .call 1]
+    let fin := Conc.run mid [.call 0, .call 1, .ex 2 .demTake, .call 1, .ex 2 .demDone, .ex 2 .take, .call 0,
+      .ex 1 (.lvKey (1, 0)), .ex 2 (.lvKey (1, 0)), .ex 2 .finish, .ex 1 .finish, .call 0]
+    membersOf mid.st (1, 0) = [1, 2] ∧ relMem mid.st 1 = [] ∧ Conc.phaseOf mid 1 = .leaving [(1, 0)] [] ∧
+    membersOf fin.st (1, 0) = [] ∧ membersOf fin.st (1, 1) = [] ∧ fin.thr = [.done, .done] ∧
+    Conc.phaseOf fin 1 = .done ∧ Conc.phaseOf fin 2 = .done ∧
+    fin.sent = [⟨9, false, 1, 0, [2]⟩, ⟨8, false, 1, 0, [2]⟩, ⟨9, false, 1, 0, [1]⟩, ⟨8, false, 1, 0, [1]⟩] ∧
+    Conc.windowFailing mid.st mid.exits = [] ∧ Conc.windowFailing fin.st fin.exits = [] := by decide
+
 end C11
 
 #print axioms C11.ok_reachable
@@ -428,3 +647,10 @@ end C11
 #print axioms C11.leave_recipients_fixed_at_entry
 #print axioms C11.exit_leave_recipients_fixed_at_removal
 #print axioms C11.recipients_legacy_not_fixed
+#print axioms C11.conc_cross_index_windows
+#print axioms C11.conc_agreement_outside_own_exit
+#print axioms C11.conc_no_zombie
+#print axioms C11.conc_at_rest
+#print axioms C11.conc_queries_are_projections
+#print axioms C11.conc_membership_linearizable
+#print axioms C11.conc_notifications_exactly_once
